@@ -498,6 +498,7 @@ def run(ctx):
 
 
 SELFTEST = [
+    ('eig-symmetric-solver', 'pyerrors/linalg.py', 'anp.real(anp.linalg.eig(x)[0])', 'anp.linalg.eigh(x)[0]', 'C16-D6'),
     ('prune-scratch-not-copied', 'pyerrors/correlators.py', "            rmat.append(np.copy(tmpmat))", "            rmat.append(tmpmat)", 'C16-D5'),
     ('prune-mirror-copy', 'pyerrors/correlators.py', "                for j in range(Ntrunc):\n                    tmpmat[i][j] = evecs[i].T @ self[t] @ evecs[j]\n", "                for j in range(i + 1):\n                    tmpmat[i][j] = evecs[i].T @ self[t] @ evecs[j]\n                    tmpmat[j][i] = tmpmat[i][j]\n", 'C16-D5'),
     ('prune-triangle-only', 'pyerrors/correlators.py', "                for j in range(Ntrunc):\n                    tmpmat[i][j] = evecs[i].T @ self[t] @ evecs[j]\n", "                for j in range(i + 1):\n                    tmpmat[i][j] = evecs[i].T @ self[t] @ evecs[j]\n", 'C16-D5'),
